@@ -208,3 +208,59 @@ func TestTableHTTPStatus(t *testing.T) {
 	}
 	_ = strings.ToLower
 }
+
+// TestTablePost: POST returns the service's result verbatim (no content for
+// null), a Location header for resource responses; HEAD is handled as GET.
+func TestTablePost(t *testing.T) {
+	enc, done := openOut(t, "httppost")
+	defer done()
+	one := func(cfg ScenarioCfg, method, path string, final [3]string, access string) Rec {
+		row := Rec{"status": 0, "body": "", "hdr": map[string]any{}}
+		synctest.Test(t, func(t *testing.T) {
+			cfg.Free, cfg.Family = true, "http"
+			cfg.Resources = map[string]SimRes{"m": {Kind: "m", M: map[string]Val{"x": {T: "p", V: "1"}}}}
+			w := NewWorld(t, cfg)
+			mark := len(w.Log())
+			w.Do(Step{Op: "http", C: "h1", Method: method, Path: path})
+			for i := 0; i < 10; i++ {
+				rs := w.mq.pendingReqs()
+				if len(rs) == 0 {
+					break
+				}
+				r := rs[0]
+				if r.typ == "access" {
+					w.sim.reply(r, access, "")
+				} else {
+					w.sim.reply(r, final[0], final[1], final[2])
+				}
+				synctest.Wait()
+				w.drainFrames()
+			}
+			w.Drain()
+			for _, r := range w.Log()[mark:] {
+				if r["e"] == "httpres" {
+					row["status"], row["hdr"], row["body"] = r["status"], r["hdr"], r["body"]
+				}
+			}
+			w.Teardown()
+		})
+		return row
+	}
+	for _, enco := range []string{"json", "jsonflat"} {
+		for _, raw := range []string{`{"a":1}`, `null`, `"str"`, `[1,2]`, `12`, `{"a":{"b":[true,null]}}`, `""`, `false`} {
+			r := one(ScenarioCfg{APIEncoding: enco}, "POST", "/api/m/act", [3]string{"raw", raw, ""}, "ok")
+			r["kind"], r["raw"], r["enc"] = "post", raw, enco
+			enc.Encode(r)
+		}
+		for _, rr := range [][2]string{{"b", "/api/b"}, {"b.c", "/api/b/c"}, {"m", "/api/m"}} {
+			r := one(ScenarioCfg{APIEncoding: enco}, "POST", "/api/m/act", [3]string{"res", rr[0], ""}, "ok")
+			r["kind"], r["rrid"], r["loc"], r["enc"] = "postres", rr[0], rr[1], enco
+			enc.Encode(r)
+		}
+		for _, c := range [][3]string{{"/api/m", "ok", "ok"}, {"/api/nope", "ok", "ok"}, {"/api/m", "deny", "ok"}, {"/api/m", "ok", "code:system.internalError"}} {
+			g := one(ScenarioCfg{APIEncoding: enco}, "GET", c[0], [3]string{c[2], "", ""}, c[1])
+			h := one(ScenarioCfg{APIEncoding: enco}, "HEAD", c[0], [3]string{c[2], "", ""}, c[1])
+			enc.Encode(Rec{"kind": "head", "enc": enco, "path": c[0], "gstatus": g["status"], "hstatus": h["status"], "ghdr": g["hdr"], "hhdr": h["hdr"]})
+		}
+	}
+}
